@@ -179,7 +179,8 @@ class RequestHandlerBase(MethodView):
 
     def increment_error_counter(self, usage: str, code: int) -> int:
         key = f'error-{usage}-{code:06d}'
-        value = flask.session.get(key, 0) + 1
+        # reset_error_counter() stores None
+        value = (flask.session.get(key) or 0) + 1
         flask.session[key] = value
         return value
 
